@@ -49,6 +49,15 @@ CHECKS = {
  "C16": dict(technique="complete product: 8 branching-fraction patterns (ties, ties at the maximum, 1e-12..1, 7+ digits) x 6 table lengths x 3 line-content variants x 48 option combinations + 7 invalid ones; oracle with exact Fractions and a 7-significant-digit comparison",
              text="Every printed table of the real print_decay_modes is parsed row by row and compared with the reference rows (order by bf in the requested direction, file order among ties, one row per line, daughters/model/PHOTOS/parameters tokens, value within half a unit of the 7th digit of bf, bf/sum or bf*scale/max); invalid options must raise RuntimeError and stored values must be unchanged.",
              note="Tables without lines and zero branching fractions are outside the space.", ref="3/C16"),
+ "C17": dict(technique=DBE + " over AmpGen option texts (3 event types, 1..4 complete and 0..6 partial lines, spin/lineshape tags, coupling forms, fix flags, parameter/constant lines, 6 layouts, the cartesian option 0/1/absent at 3 positions); each text is read in a forked pristine child",
+             text="Every option text within the deviation bound is read by the real AmplitudeChain.read_ampgen; event type, parameter table, constants table and the list of amplitudes (tree, tags, coupling as mag*exp(i*phase) or re+i*im) must equal the reference cartesian expansion in file order.",
+             note="Bound 2 / 3 deviations; vocabulary limited to a hand-written name->PDG-ID table; the harness memoises the pure name lookup (checked against unmemoised runs).", ref="3/C17"),
+ "C18": dict(technique="complete enumeration: all 3962 (binary tree shape, leaf multiplicity pattern, event-type arrangement) cases for the permutation set; all 26 supported spin structures/topologies x 4^k lineshape kinds x event-type orders x both output classes for the generated code, read back by independent front-ends",
+             text="list_structure must return exactly the injective assignments; the code generated by both output classes must contain, per permutation, the expected spin factors (frozen copy of the table + form factor from the triangle rule), one lineshape per resonance of the declared kind and L with mass indices from the same permutation, and declare the number of permutations.",
+             note="The spin-structure table is a frozen copy (its physics is not judged); mass symbols compared as written.", ref="3/C18"),
+ "C19": dict(technique=DBE + " over four-body option files (26 spin structures, 6 lineshape tags per resonance, fixed/free couplings, spline / K-matrix / extra parameter families written in scrambled order) + the shipped model + the command-line entry point; both outputs read back into one structure, declared-before-use analysis, and execution of the Python output against a recording stand-in of goofit",
+             text="For every file within the bound the C++ and Python outputs of the real converters must contain the same event type, constants, resonance variables, parameters, arrays and amplitudes (names, values, fixedness, spin factors, lineshapes and their arguments), every model symbol must be declared before use, the Python text must compile and run, and ret_output text must equal the printed text.",
+             note="Known finding F9 (symbol sA_0 never declared for kMatrix lineshapes) is matched by signature and reported as KNOWN-FINDING; bound 2 / 3 deviations.", ref="3/C19"),
  "C14": dict(technique="explicit-state BFS over call histories of the real DescriptorFormat (state hashing on config + hidden per-object state) against a stack reference model; second driver through real with-blocks",
              text="Every history of create/enter/leave/leave-by-exception/set/invalid-set operations up to the stated length (all histories up to the forced depth, state-hashed beyond) is executed on the real class and compared after every step with a stack model of the format in force; bounded exhaustive, no sampling.",
              note="Bounded by history length and at most 3 context objects; two valid and eight invalid pattern pairs.", ref="3/C14"),
